@@ -5,6 +5,7 @@ package main
 
 import (
 	"fmt"
+	"os"
 	"go/types"
 	"math/big"
 	"strings"
@@ -127,8 +128,115 @@ func (e *Engine) fileSlice(st *State, f fileState) *SliceV {
 	return singleSlice(l, BVu(0, 64), f.ln, f.ln)
 }
 
+var debugFlatten = os.Getenv("GOSYM_DEBUG_FLATTEN") != ""
+
+// flattenSlice turns a byte slice with several guarded alternatives (merged
+// states whose appends reallocated differently) into one fresh element-wise
+// slice with the same content; returns s itself when that is not possible.
+func (e *Engine) flattenSlice(st *State, s *SliceV) *SliceV {
+	if len(s.A) <= 1 {
+		return s
+	}
+	maxN := 0
+	bounds := make([]int, len(s.A))
+	anyBig := false
+	for i, al := range s.A {
+		if al.Base == nil {
+			continue
+		}
+		if _, big := e.bigLeaves(st, al.Base); big {
+			anyBig = true
+			continue
+		}
+		nb, ok := e.lenBound(st, al)
+		if !ok || nb > 1<<16 {
+			if debugFlatten {
+				fmt.Fprintf(os.Stderr, "flatten: alt %d unbounded %v %d len=%s\n", i, ok, nb, al.Len)
+			}
+			return s
+		}
+		bounds[i] = nb
+		if nb > maxN {
+			maxN = nb
+		}
+	}
+	if anyBig {
+		// SMT-array result: each alternative contributes its content array (shifted to offset 0)
+		var data *Term
+		ln := BVu(0, 64)
+		for i := len(s.A) - 1; i >= 0; i-- {
+			al := s.A[i]
+			if al.Base == nil {
+				ln = Ite(al.G, BVu(0, 64), ln)
+				continue
+			}
+			ln = Ite(al.G, al.Len, ln)
+			var arr *Term
+			if b, big := e.bigLeaves(st, al.Base); big {
+				if len(b.Leaves) != 1 {
+					return s
+				}
+				arr = b.Leaves[0]
+				if c, isC := al.Off.ConstInt(); !isC || c != 0 {
+					TF.fresh++
+					j := Var(fmt.Sprintf("j!%d", TF.fresh), 64)
+					arr = Lambda(j, Select(arr, Add(al.Off, j)))
+				}
+			} else {
+				arr = ConstArr(8, BVu(0, 8))
+				for k := 0; k < bounds[i]; k++ {
+					K := BVu(uint64(k), 64)
+					b, ok := e.sliceGet(st, al, K).(*Term)
+					if !ok {
+						return s
+					}
+					arr = Store(arr, K, b)
+				}
+			}
+			if data == nil {
+				data = arr
+			} else {
+				data = Ite(al.G, arr, data)
+			}
+		}
+		if data == nil {
+			return s
+		}
+		l := e.alloc(st, &BigArrV{N: ln, Elem: types.Typ[types.Uint8], Leaves: []*Term{data}})
+		return singleSlice(l, BVu(0, 64), ln, ln)
+	}
+	es := make([]Value, maxN)
+	for k := range es {
+		es[k] = BVu(0, 8)
+	}
+	ln := BVu(0, 64)
+	for i := len(s.A) - 1; i >= 0; i-- {
+		al := s.A[i]
+		if al.Base == nil {
+			ln = Ite(al.G, BVu(0, 64), ln)
+			continue
+		}
+		ln = Ite(al.G, al.Len, ln)
+		for k := 0; k < bounds[i]; k++ {
+			K := BVu(uint64(k), 64)
+			c := And(al.G, Ult(K, al.Len))
+			if c.IsFalse() {
+				continue
+			}
+			b, ok := e.sliceGet(st, al, K).(*Term)
+			if !ok {
+				return s
+			}
+			es[k] = Ite(c, b, es[k].(*Term))
+		}
+	}
+	l := e.alloc(st, &ArrayV{E: es, T: types.Typ[types.Uint8]})
+	return singleSlice(l, BVu(0, 64), ln, ln)
+}
+
 // fileWrite writes the slice at offset at under guard g and returns the new state and the byte count.
 func (e *Engine) fileWrite(st *State, f fileState, at *Term, s *SliceV, g *Term, site string) (fileState, *Term) {
+	s = e.flattenSlice(st, s)
 	if len(s.A) != 1 {
 		panic(unsupported("file write of multi-alternative slice at " + site))
 	}
@@ -192,6 +300,7 @@ func (e *Engine) fileWrite(st *State, f fileState, at *Term, s *SliceV, g *Term,
 
 // appendBytes returns data with the slice's bytes written at offset at.
 func (e *Engine) writeBytesAt(st *State, data *Term, at *Term, s *SliceV, site string) (*Term, *Term) {
+	s = e.flattenSlice(st, s)
 	if len(s.A) != 1 {
 		panic(unsupported("file write of multi-alternative slice at " + site))
 	}
@@ -481,8 +590,55 @@ func installEnvStubs(e *Engine) {
 }
 
 // installLibStubs: strconv / csv / ghost registry / tokens
+// bufferAppend models the write side of bytes.Buffer: buf = append(buf, data...)
+// into a fresh backing array (a Buffer's storage is private to it, so always
+// reallocating is unobservable unless a caller keeps Bytes() across a later
+// write, which the repository never does). The read side (Next, Read, Bytes,
+// Len) is interpreted from the library's own SSA.
+func (e *Engine) bufferAppend(st *State, recv Value, data Value, site string) *Term {
+	pv := recv.(*PtrV)
+	alts := e.nonNil(st, pv, site, "bytes.Buffer")
+	if len(alts) != 1 {
+		panic(unsupported("bytes.Buffer write through multi-alternative pointer at " + site))
+	}
+	bl := extendLoc(alts[0].L, Step{Field: 0})
+	buf := e.flattenSlice(st, e.loadLoc(st, bl).(*SliceV))
+	forced := &SliceV{}
+	for _, a := range buf.A {
+		a.Cap = a.Len // no spare capacity: append takes the reallocation path only
+		forced.A = append(forced.A, a)
+	}
+	var n *Term
+	for _, v := range e.views(st, data, site) {
+		if n == nil {
+			n = v.len
+		} else {
+			n = Ite(v.g, v.len, n)
+		}
+	}
+	if n == nil {
+		n = BVu(0, 64)
+	}
+	out := e.appendBuiltin(st, forced, data, types.Typ[types.Uint8], site)
+	e.storeLoc(st, bl, e.flattenSlice(st, out), True())
+	return n
+}
+
 func installLibStubs(e *Engine) {
 	S := e.stubs
+	S["(*bytes.Buffer).Write"] = func(e *Engine, st *State, c *callInfo, a []Value) Value {
+		n := e.bufferAppend(st, a[0], a[1], c.site)
+		return &TupleV{E: []Value{n, nilIface()}}
+	}
+	S["(*bytes.Buffer).WriteString"] = func(e *Engine, st *State, c *callInfo, a []Value) Value {
+		n := e.bufferAppend(st, a[0], a[1], c.site)
+		return &TupleV{E: []Value{n, nilIface()}}
+	}
+	S["(*bytes.Buffer).WriteByte"] = func(e *Engine, st *State, c *callInfo, a []Value) Value {
+		l := e.alloc(st, &ArrayV{E: []Value{a[1]}, T: types.Typ[types.Uint8]})
+		e.bufferAppend(st, a[0], singleSlice(l, BVu(0, 64), BVu(1, 64), BVu(1, 64)), c.site)
+		return nilIface()
+	}
 	S["verif:verifGhostSet"] = func(e *Engine, st *State, c *callInfo, a []Value) Value {
 		iv := a[1].(*IfaceV)
 		st.ghost["user:"+mustConcreteStr(a[0], "verifGhostSet key")] = iv.A[0].V
@@ -667,6 +823,10 @@ func installHTTPStubs(e *Engine) {
 		src, ok := st.ghost["user:json.body"]
 		fails := FreshBool("json.decode.fails")
 		fails.Input = true
+		if _, wf := st.ghost["user:json.wellformed"]; wf {
+			// the harness sends the JSON rendering of a value of the target type: decoding succeeds
+			fails = False()
+		}
 		e.noteAssumption("encoding/json: Decode either fails (target untouched) or stores an arbitrary value of the target type chosen by the harness; JSON text semantics are a contract, not encoded")
 		if !ok {
 			return e.newError(st, "json: decode error")
